@@ -9,6 +9,10 @@ from vflib.driver import Monitor
 
 PROP = 'C01'
 RULE = (
+    '(i) bounded-exhaustive: the COMPLETE decision trees of small games '
+    '(2-3 players, stacks of 1-8 chips, hold\'em NL/FL, PLO, Kuhn, razz, '
+    'single draw; every fold/call/raise amount/discard/show-or-muck '
+    'choice) are walked under the same monitors (vflib.explore); (ii) '
     'seeded random configurations (12 predefined games via games.py + custom '
     'street lists; 2-9 players; ante/blind/straddle/post/bring-in layouts '
     'incl. stacks shorter than the forced bets; trimming on/off; 1-3 boards; '
@@ -31,7 +35,8 @@ CASES = {'quick': 24000, 'thorough': 260000}
 TIME = {'quick': 70, 'thorough': 540}
 MIN_NONTRIVIAL = {'quick': 1500, 'thorough': 10000}
 REQUIRED = ('refunds', 'side_pots', 'odd_chip_remainders', 'rake_taken',
-            'terminal_states_checked', 'short_forced_bets')
+            'terminal_states_checked', 'short_forced_bets',
+            'trees_completed', 'explored_nodes')
 
 CUSTOMS = ('kuhn', 'draw5', 'stud5', 'greek', 'courchevel', 'holdem8',
            'plo8', 'badugi1', 'razzdraw', 'random')
@@ -204,6 +209,8 @@ def classify(ctx, v):
 def run_shard(seed, shard, of, tier, deadline):
     return hist.run_history_shard(
         PROP, seed, shard, of, tier, deadline, cases=CASES,
+        explore_s={'quick': 8, 'thorough': 100},
+        explore_nodes={'quick': 2500, 'thorough': 40000},
         gen_kwargs=gen_kwargs, make_monitors=make_monitors,
         nontrivial=nontrivial, classify=classify, pol_tweak=pol_tweak)
 
